@@ -88,6 +88,16 @@ CHECKS = {
              "container are compared with the model; any sanitizer report or crash is a violation.",
         note="the Python models of std::vector/map/string semantics are mine; range views only while the container is not structurally modified",
         design="4/C12"),
+    "C15": dict(
+        engine="hypothesis-runner",
+        category="exploration",
+        technique="model-based stateful property testing: generated histories of definitions, registrations, use(), get_state and set_state(any earlier snapshot) against a dictionary model",
+        text="After every step the engine's overload counts, function objects, function_exists, globals (values of const ones), type names, used-file "
+             "records and top-level locals are compared with the model, and every modelled function is probe-called with an int and a string "
+             "argument (directly, and through a long-lived function defined before the first snapshot); re-adding something removed by a restore "
+             "must succeed and re-adding something present must fail.",
+        note="the dictionary model is mine; mutable globals' values are shared with snapshots by design and not compared; loadable binary modules are not exercised",
+        design="4/C15"),
     "C16": dict(
         engine="hypothesis-runner",
         category="exploration",
